@@ -9,10 +9,20 @@ import Model.LRU
 -/
 namespace Prepare
 
-/-- prepared_cache.go keyFor: `return hostID + keyspace + statement` — plain concatenation of the three Go
-    strings (byte strings; `α := UInt8` in the driver's `keyfor`/`keypair` ops, `Char` in the older ops), no
-    separator, no length, no normalisation of any kind. -/
-def keyFor {α : Type} (hostID keyspace stmt : List α) : List α := hostID ++ keyspace ++ stmt
+/-- decimal digits of n as bytes (Go `strconv.Itoa` on a length) -/
+def dec (n : Nat) : List UInt8 := (Nat.toDigits 10 n).map fun c => UInt8.ofNat c.toNat
+
+/-- prepared_cache.go keyFor (after the repair of KF-C14-1, props/C14.fix-KF-C14-1.diff):
+    `return strconv.Itoa(len(hostID)) + "/" + strconv.Itoa(len(keyspace)) + "/" + hostID + keyspace + statement`
+    over Go strings = byte strings: the decimal byte lengths of the two leading parts, each followed by '/',
+    then the plain concatenation. No normalisation of any kind. -/
+def keyFor (hostID keyspace stmt : List UInt8) : List UInt8 :=
+  dec hostID.length ++ [0x2f] ++ (dec keyspace.length ++ [0x2f] ++ (hostID ++ keyspace ++ stmt))
+
+/-- the key the code computed BEFORE that repair: `return hostID + keyspace + statement` — plain concatenation,
+    no separator, no length. Not injective (KF-C14-1). Kept only for the regression examples in Proofs/C14.lean;
+    nothing in the model of the code that exists uses it. -/
+def keyForOld {α : Type} (hostID keyspace stmt : List α) : List α := hostID ++ keyspace ++ stmt
 
 /-- what a statement IS for the cache: (host id, the connection's current keyspace, statement text) -/
 structure Triple where
@@ -29,24 +39,6 @@ def sameKey (t₁ t₂ : Triple) : Bool := decide (keyOf t₁ = keyOf t₂)
 
 /-- SPECIFICATION: one cache entry per statement — two triples share an entry iff they are the same triple -/
 def sameStmt (t₁ t₂ : Triple) : Bool := decide (t₁ = t₂)
-
-/-- the condition under which the code meets the specification (KF-C14-1 outside it): the two host ids have
-    the same length and the two keyspaces have the same length -/
-def lensAgree (t₁ t₂ : Triple) : Bool :=
-  t₁.host.length == t₂.host.length && t₁.ks.length == t₂.ks.length
-
-/-- the excluded class of op `keypair` (known finding KF-C14-1), decided WITHOUT the key function: the plain
-    concatenations of the two triples are equal although the lengths do not agree -/
-def excluded (t₁ t₂ : Triple) : Bool :=
-  !lensAgree t₁ t₂ && decide (t₁.host ++ t₁.ks ++ t₁.text = t₂.host ++ t₂.ks ++ t₂.text)
-
-/-- decimal digits of n as bytes (Go `strconv.Itoa` on a length) -/
-def dec (n : Nat) : List UInt8 := (Nat.toDigits 10 n).map fun c => UInt8.ofNat c.toNat
-
-/-- the key function of the proposed fix (props/C14.fix-1.diff):
-    `strconv.Itoa(len(hostID)) + "/" + strconv.Itoa(len(keyspace)) + "/" + hostID + keyspace + statement` -/
-def keyForFixed (hostID keyspace stmt : List UInt8) : List UInt8 :=
-  dec hostID.length ++ [0x2f] ++ (dec keyspace.length ++ [0x2f] ++ (hostID ++ keyspace ++ stmt))
 
 inductive Status
   | inflight
